@@ -94,6 +94,11 @@ KINDS = ['cu', 'uniform', 'uniform-dyadic', 'dyadic', 'random']
 
 def gen_breaks(rng, kind, nc):
     if kind == 'cu' or kind == 'uniform':
+        if rng.random() < 0.5:
+            # generic origins and lengths: (x - xmin)/dx is then not exactly representable (the radial domain [0.1, 14.5] of the
+            # simulation is of this kind)
+            a = rng.choice([0.1, 0.3, 1.1, rng.uniform(-10, 10), rng.uniform(0, 2)])
+            return np.linspace(a, a + rng.choice([1.0, 14.4, rng.uniform(0.5, 20.0)]), nc + 1)
         a = rng.choice([-1.0, 0.0, 0.5, -3.25])
         return np.linspace(a, a + rng.choice([1.0, 3.0, 2.5, 7.0]), nc + 1)
     if kind == 'uniform-dyadic' or kind == 'cu-dyadic':
